@@ -136,3 +136,6 @@ Proof.
   intros H. inversion H; subst. simpl. apply format_valid.
   rewrite CP.stored_trunc_floor. apply CP.floor_in_range. auto.
 Qed.
+
+Lemma valid_timestamp_nonempty p c s : valid_timestamp p c s = true -> s <> [].
+Proof. intros H ->. discriminate. Qed.
